@@ -264,6 +264,13 @@ class Walker:
         v = cval(c)
         if v is not None:
             return bool(v) == truth
+        if c.get("k") == "Ref" and (c.get("t") or {}).get("k") in ("int", "bool", "enum"):
+            # a plain variable used as a condition: decided when the path knows its value (`wildcard = 0; .. if (!wildcard)`)
+            fm = st.env.get(pp(c))
+            if fm is not None and not fm[0]:
+                return (fm[1] != 0) == truth
+            if fm is not None and not truth:
+                return self.add_cmp_forms(st, fm, "==", ({}, 0))
         return True
 
     # ---- default interpretation of counter updates
